@@ -201,6 +201,8 @@ def run(rep):
             ("dedup-test", any(re.search(r"^False=HashSet::contains\(HashSet::new\(\), BusListener::conn_id\(%s\)\)$" % lst, x) for x in g), "the send must be on the false edge of the per-connection de-duplication test"),
             ("dedup-insert", bool(ins) and all(eb.dominates(c.bb, s.bb) for c in ins), "the connection must be recorded as served before sending"),
             ("target", all_match(s.target, r"^self\.conns\[BusListener::conn_id\(%s\)\]" % lst), "the event goes to the listener's connection"),
+            ("dedup-monotone", dedup_set is not None and not [c for c in eb.calls if c.args and eb.base_local(c.args[0]) == dedup_set and c.name not in ("contains", "insert", "deref", "deref_mut", "borrow", "borrow_mut")],
+             "the de-duplication set may only grow while the listeners are visited (no clear/remove/drain)"),
         ]
         for inst, ok, msg in checks:
             rep.check(ok, "C10-R3", eb.def_, inst, msg, line=s.line, detail={"guards": g})
